@@ -311,6 +311,25 @@ def run_shard(ctx, spec):
                     ctx.finding("C19:jwk-integer-not-minimal", f"RSA member {m} of a {k['bits']}-bit key is exported as {len(raw)} octets"
                                 f"{' with a leading zero octet' if raw[:1] == b'\x00' else ''}; minimal form has {len(rb.decode(rb.int_to_b64(refk[m])))}",
                                 {"kind": "jwk-int", "bits": k["bits"], "member": m})
+        # EC keys: x, y and d at exactly the width of the curve (leading zero octets kept), for scalars that give short coordinates too
+        from joserfc.jwk import ECKey
+        from ref.ec import CURVES as _CV
+        import hashlib as _hl
+        for crv in ("P-256", "P-384", "P-521", "secp256k1"):
+            ds = [int(v, 16) for v in _gk.pool()["EC_special"].get(crv, {}).values()] + \
+                 [int.from_bytes(_hl.sha512(b"%s/%d" % (crv.encode(), i)).digest() * 2, "big") % (_CV[crv].n - 1) + 1 for i in range(12)]
+            for dval in ds:
+                refk = _gk.ec_from_d(crv, dval)
+                for private in (True, False):
+                    ctx.case(("jwk-ec", crv, dval % 10**6, private), cls="int:jwk-member")
+                    try:
+                        d = ECKey.import_key(_gpem.to_pem(refk, private)).as_dict()
+                        bad = [m for m in ("x", "y") + (("d",) if private else ()) if d.get(m) != rb.encode(refk[m].to_bytes(_CV[crv].size if m != "d" else _CV[crv].nsize, "big"))]
+                    except Exception as e:
+                        bad = [f"{type(e).__name__}: {e}"]
+                    if bad:
+                        ctx.finding("C19:jwk-ec-member-not-full-width", f"{crv} key read from PEM ({'private' if private else 'public'}): exported member(s) {bad} are not the "
+                                    f"{_CV[crv].size}-octet big-endian form", {"kind": "jwk-ec", "crv": crv, "d": str(dval), "private": private})
     elif part == "fixedint":
         def body(c):
             bits, n = c
@@ -355,6 +374,20 @@ def replay(rec) -> dict:
             if d.get(rec["member"]) != rb.int_to_b64(refk[rec["member"]]):
                 return {"C19:jwk-integer-not-minimal": f"member {rec['member']} of a {rec['bits']}-bit key"}
         return {}
+    if k == "jwk-ec":
+        from gens.jose import setup_joserfc
+        setup_joserfc()
+        from gens import keys as _gk, pem as _gpem
+        from joserfc.jwk import ECKey
+        from ref.ec import CURVES as _CV
+        refk = _gk.ec_from_d(rec["crv"], int(rec["d"]))
+        c = _CV[rec["crv"]]
+        try:
+            d = ECKey.import_key(_gpem.to_pem(refk, rec["private"])).as_dict()
+            bad = [m for m in ("x", "y") + (("d",) if rec["private"] else ()) if d.get(m) != rb.encode(refk[m].to_bytes(c.size if m != "d" else c.nsize, "big"))]
+        except Exception as e:
+            bad = [type(e).__name__]
+        return {"C19:jwk-ec-member-not-full-width": f"{rec['crv']}: {bad}"} if bad else {}
     if k == "b64any":
         import re as _re
         t = bytes.fromhex(rec["text_hex"])
